@@ -15,7 +15,7 @@ META = {
     "bounds": {"quick": "minimal shapes of 10 seed-rotated command codes + core and their one-pair streams, full-range leaves symbolic",
                "thorough": "all command codes, two-pair streams"},
     "outside": "byte sources other than the six listed kinds; io.bytes_from_files (reads a whole file object at once; not a per-byte source)",
-    "wall_budget_s": {"quick": 250, "thorough": 1500},
+    "wall_budget_s": {"quick": 250, "thorough": 840},
 }
 CORE = ("Startup", "GetRandom", "CreatePrimary")
 
